@@ -32,6 +32,8 @@ func rulesC05(c *Ctx, r *Report) {
 	rulesNewickChildren(c, r)
 	rulesPassAllFor(c, r, "formats/newick", 2)
 	rulesNoBufferedPkg(c, r, "formats/newick")
+	rulesNumWidth(c, r, "formats/newick")
+	rulesWholeLines(c, r, "formats/newick", "tokenizer")
 }
 
 // replaceAllOf finds strings.ReplaceAll(x, from, to) calls reachable (by dominance) on the given edge of cond.
